@@ -10,7 +10,7 @@ barycentric location all come from the SAME projection call, the fraction being 
 edge's second vertex) in 2D and 3D alike; the surface normal is the normal of the triangle whose id that same projection
 returned; max_dist reaches parry's cap argument; project_with_tol applies the optional transform to the query exactly once,
 accepts exactly under angle < max or angle > PI - max of normal.angle(query - projection), and indices_in_tol pushes i exactly
-under project_with_tol(points[i]).is_some()."""
+under project_with_tol(points[i]).is_some(). Round 5: the cumulative-length table of from_points (running sum over the STORED vertices; shared with C01) - length_along of a closest point is read from it."""
 NOT_DECIDED = "that parry's BVH search returns the global optimum (dependency), ties, degenerate triangles (normal().unwrap() may panic)"
 ASSUMPTIONS = ["parry: project_local_point_and_get_location returns (projection, (feature id, location))"]
 
